@@ -296,6 +296,31 @@ func (x *Exec) selectTerm(vals []*smt.Term, idx *smt.Term) *smt.Term {
 	if idx.IsConst() {
 		return vals[idx.Val]
 	}
+	// replicated tables (prefix-code root tables): vals[i] == vals[i mod P] for a power of two P
+	if n := len(vals); n > 1 && n&(n-1) == 0 {
+		P := n
+		for P > 1 {
+			h := P / 2
+			same := true
+			for i := h; i < n && same; i++ {
+				same = vals[i] == vals[i-h]
+			}
+			if !same {
+				break
+			}
+			P = h
+		}
+		if P == 1 {
+			return vals[0]
+		}
+		if P < n {
+			k := 0
+			for 1<<uint(k) < P {
+				k++
+			}
+			return x.selectTerm(vals[:P], C.ZExt(C.Extract(idx, k-1, 0), idx.W))
+		}
+	}
 	allConst := true
 	for _, v := range vals {
 		if !v.IsConst() {
@@ -337,25 +362,37 @@ func (x *Exec) load(p Pointer, t types.Type) Value {
 		return a
 	}
 	// symbolic address
-	if len(p.Sym) == 1 && n == 1 {
-		// fast path: table lookup when all candidate cells are constants
+	if len(p.Sym) == 1 && n*p.Sym[0].N <= 1<<16 {
+		// fast path: per-slot table lookup when all candidate cells are scalars
 		s := p.Sym[0]
 		cnt := s.N
-		if lim := (p.Obj.N - p.Off + s.Stride - 1) / s.Stride; cnt > lim {
+		if lim := (p.Obj.N - p.Off - n + s.Stride) / s.Stride; cnt > lim {
 			cnt = lim
 		}
-		vals := make([]*smt.Term, 0, cnt)
-		ok := true
-		for i := 0; i < cnt; i++ {
-			v, isT := x.read(p.Obj, p.Off+i*s.Stride).(*smt.Term)
-			if !isT {
-				ok = false
-				break
-			}
-			vals = append(vals, v)
+		if mb := smt.MaxBits(s.Idx); mb < 20 && cnt > 1<<uint(mb) {
+			cnt = 1 << uint(mb) // the index cannot exceed its significant bits (already bounds-checked)
 		}
-		if ok && len(vals) > 0 {
-			return x.selectTerm(vals, s.Idx)
+		res := make(Agg, n)
+		ok := cnt > 0
+		for slot := 0; slot < n && ok; slot++ {
+			vals := make([]*smt.Term, 0, cnt)
+			for i := 0; i < cnt; i++ {
+				v, isT := x.read(p.Obj, p.Off+i*s.Stride+slot).(*smt.Term)
+				if !isT {
+					ok = false
+					break
+				}
+				vals = append(vals, v)
+			}
+			if ok {
+				res[slot] = x.selectTerm(vals, s.Idx)
+			}
+		}
+		if ok {
+			if !isAgg(t) {
+				return res[0]
+			}
+			return res
 		}
 	}
 	conds, offs := x.candidates(p, n)
